@@ -2,7 +2,14 @@
   C20 — Generic geometry entry points are total and agree with typed ones.
   PROPERTY THEOREMS about facts REGENERATED from the Go source on every run
   (`Generated/Switches.lean`: every type switch in non-test code whose cases name at least two of
-  the nine geometry kinds, with its case set, default clause and whether a `panic` follows).
+  the nine geometry kinds — found at any nesting depth, inside labelled statements, select bodies,
+  function literals and package-level initialisers — with its case set, whether its default clause
+  contains a non-returning call and whether one occurs anywhere after it in the enclosing function).
+
+  A switch passes only if it names all nine kinds or is LISTED here with its exact case set and a
+  reason: `justified` (a panic is in reach, the missing kinds cannot get there) or `ignoring` (no
+  panic in reach, the missing kinds are passed over and the result is still right).  Being
+  panic-free is not a pass by itself.
 
   The dynamic clauses (no panic on degenerate members, agreement with the typed functions,
   collections as combinations, read-only arguments unchanged) are judged by the executable property
@@ -21,37 +28,80 @@ def nine : List String :=
 
 def namesAll (s : Sw) : Bool := s.kinds == nine
 
-/-- kinds not named reach neither a panicking `default` nor a `panic` placed after the switch -/
+/-- no non-returning call (`panic`, `log.Panic*`, `log.Fatal*`, `os.Exit`) ANYWHERE in the default
+    clause and none ANYWHERE after the switch in the enclosing function body (factgen looks at any
+    depth, so a guarded or distant panic counts too).  This alone does NOT make a switch acceptable:
+    a switch that silently ignores kinds can make its function's result wrong without panicking. -/
 def fallsThroughSafely (s : Sw) : Bool := !(s.hasDefault && s.defaultPanics) && !s.tailPanics
 
-/-- Switches that name fewer than nine kinds in front of a `panic`, with the reason the missing
-    kinds cannot reach it.  An entry is matched with its exact case set, so widening or narrowing
-    such a switch re-opens the obligation. -/
+/-- Switches that name fewer than nine kinds and have a `panic` in reach (in the default clause or
+    somewhere after the switch), with the reason the missing kinds cannot reach it.  An entry is
+    matched with its exact case set, so widening or narrowing such a switch re-opens the obligation. -/
 def justified : List (String × String × Nat × List String) := [
   -- smartclip.Geometry returns `clip.Geometry(box, g)` for every value with Dimensions() != 2
   -- before the switch; the five kinds named are exactly those that can have dimension 2
   ("clip/smartclip", "Geometry", 1, ["Bound", "Collection", "MultiPolygon", "Polygon", "Ring"]),
-  -- Encoder.encode's first switch rewrites Ring and Bound to Polygon before this second switch
+  -- Encoder.encode's first switch only REWRITES a Ring / Bound to the Polygon it is written as; every
+  -- other kind leaves it unchanged and goes on to the second switch of the same function (next
+  -- entry), whose trailing panic is the one factgen sees from here
+  ("encoding/internal/wkbcommon", "Encoder.encode", 1, ["Bound", "Ring"]),
+  -- … so this second switch sees neither Ring nor Bound: it names the seven kinds that are left
   -- (since fix 968afdb the dispatch lives in `encode`; `Encode` keeps only the top-level nil rule)
   ("encoding/internal/wkbcommon", "Encoder.encode", 2,
     ["Collection", "LineString", "MultiLineString", "MultiPoint", "MultiPolygon", "Point", "Polygon"])
 ]
 
+/-- Switches that name fewer than nine kinds and have NO panic in reach: the kinds not named are
+    passed over silently, so each needs a reason why the function's result is still right for them.
+    Matched with the exact case set; an entry only counts while the switch stays panic-free. -/
+def ignoring : List (String × String × Nat × List String) := [
+  -- ScanMultiPoint switches on the value `Unmarshal` DECODED (not on an argument): a point becomes a
+  -- one-point multi-point, a multi-point is returned, every other kind is answered with the error
+  -- ErrIncorrectGeometry right after the switch — not silently
+  ("encoding/internal/wkbcommon", "ScanMultiPoint", 1, ["MultiPoint", "Point"]),
+  -- Encoder.Encode's switch only asks "is this a typed nil slice?" (then nothing is written); Point
+  -- and Bound are arrays / structs, never nil, and every kind then goes to `encode`
+  ("encoding/internal/wkbcommon", "Encoder.Encode", 1,
+    ["Collection", "LineString", "MultiLineString", "MultiPoint", "MultiPolygon", "Polygon", "Ring"]),
+  -- GeomLength answers 0 for a Ring / Bound; its only use is the INITIAL CAPACITY of the bytes.Buffer
+  -- in Marshal (the buffer grows), so no encoding depends on it (C01 compares the bytes of rings and bounds)
+  ("encoding/internal/wkbcommon", "GeomLength", 1,
+    ["Collection", "LineString", "MultiLineString", "MultiPoint", "MultiPolygon", "Point", "Polygon"]),
+  -- geojson.NewGeometry / newGeometryMarshallDoc: Ring and Bound become the Polygon they are written
+  -- as, a Collection becomes the list of its members' documents, and the `default` clause stores
+  -- every other kind as the coordinates value it already is (the six kinds GeoJSON has itself)
+  ("geojson", "NewGeometry", 1, ["Bound", "Collection", "Ring"]),
+  ("geojson", "newGeometryMarshallDoc", 1, ["Bound", "Collection", "Ring"])
+]
+
+def key (s : Sw) : String × String × Nat × List String := (s.pkg, s.fn, s.idx, s.kinds)
+
 def okSwitch (s : Sw) : Bool :=
-  namesAll s || fallsThroughSafely s || justified.contains (s.pkg, s.fn, s.idx, s.kinds)
+  namesAll s || justified.contains (key s) || (fallsThroughSafely s && ignoring.contains (key s))
 
 /-- The generic entry points the property lists, by the function that holds their type switch.
     Each must still exist and name all nine kinds (so a deleted or renamed switch is noticed). -/
 def expectedGeneric : List (String × String) := [
-  (".", "Clone"), (".", "Equal"), (".", "Round"), ("planar", "CentroidArea"), ("planar", "DistanceFromWithIndex"),
+  (".", "Clone"), (".", "Equal"), (".", "round"), ("planar", "CentroidArea"), ("planar", "DistanceFromWithIndex"),
   ("internal/length", "Length"), ("geo", "Area"), ("clip", "Geometry"), ("project", "Geometry"),
   ("simplify", "simplify"), ("maptile/tilecover", "Geometry"), ("encoding/wkt", "wkt"),
   ("encoding/mvt", "encodeGeometry")
 ]
 
-/-- EVERY type switch over the geometry interface in the source tree names all nine kinds or cannot
-    send a kind it does not name into a panic. -/
+/-- EVERY type switch over the geometry interface in the source tree — at any nesting, in labelled
+    statements, select bodies, function literals and package-level initialisers — names all nine
+    kinds, or is listed above with its exact case set and the reason why the kinds it does not name
+    neither reach a panic (`justified`) nor are wrongly ignored (`ignoring`, panic-free switches only).
+    A new partial switch, or a change to the case set of a listed one, makes this fail. -/
 theorem switches_total : switches.all okSwitch = true := by decide
+
+/-- No listed exception is stale: each matches a switch that exists now. -/
+theorem exceptions_all_in_use :
+    (justified ++ ignoring).all (fun j => switches.any fun s => key s == j) = true := by decide
+
+/-- Being panic-free is not enough: the panic-free partial switches are exactly the listed ones. -/
+theorem panic_free_partial_switches_listed :
+    (switches.filter fun s => !namesAll s && fallsThroughSafely s).map key = ignoring := by decide
 
 /-- Every listed generic entry point has its nine-kind switch. -/
 theorem generic_entry_points_cover_nine :
@@ -61,7 +111,12 @@ theorem generic_entry_points_cover_nine :
 /-- factgen resolved every anchor it looks for (constants, tables, functions). -/
 theorem anchors_resolved : Generated.anchorsLost = [] := by decide
 
-/-- Non-vacuity: the regenerated list is not empty and contains a switch that needs its justification. -/
-example : switches.length ≥ 15 ∧ (switches.any fun s => !namesAll s && !fallsThroughSafely s) = true := by decide
+/-- Non-vacuity: the regenerated list is not empty, contains switches that need a justification, and
+    the check rejects an unlisted partial switch, panic-free or not. -/
+example : switches.length ≥ 15 ∧ (switches.any fun s => !namesAll s && !fallsThroughSafely s) = true ∧
+    okSwitch ⟨"x", "F", 1, ["Point", "Ring"], false, false, false⟩ = false ∧
+    okSwitch ⟨"x", "F", 1, ["Point", "Ring"], true, true, false⟩ = false ∧
+    -- a listed panic-free switch that grows a panic is rejected again
+    okSwitch ⟨"geojson", "NewGeometry", 1, ["Bound", "Collection", "Ring"], true, true, false⟩ = false := by decide
 
 end Orb.C20
